@@ -356,6 +356,7 @@ func main() {
 		}
 	}
 
+	cancelQueuedLevel(o)
 	bigLevel(o)
 
 	connLevel(o)
